@@ -1038,7 +1038,7 @@ class Interp:
             if isinstance(expr, ast.Call):
                 if ast.unparse(expr.func) == "re.compile" and len(expr.args) == 1 and isinstance(expr.args[0], ast.Constant) and isinstance(expr.args[0].value, str) and not expr.keywords:
                     return Obj(None, {"pattern": Const(expr.args[0].value)}, label=f"re.Pattern({expr.args[0].value!r})")
-                if isinstance(expr.func, ast.Name) and expr.func.id in ("tuple", "list", "dict", "frozenset", "set", "sorted", "object"):
+                if (isinstance(expr.func, ast.Name) and expr.func.id in ("tuple", "list", "dict", "frozenset", "set", "sorted", "object", "itemgetter", "attrgetter")) or ast.unparse(expr.func) in ("operator.itemgetter", "operator.attrgetter"):
                     # a module-level table built from literals (e.g. a tuple of precompiled patterns): evaluated once
                     gc = self.__dict__.setdefault("_globals", {})
                     key = (mod.name, name)
@@ -1444,8 +1444,11 @@ class Interp:
             if s is None and op in ("Eq", "NotEq"):
                 s = self.eq_override(l, r)
             if s is None and op in ("Is", "IsNot"):
-                # identity of a symbolic value against None etc. stays symbolic
-                pass
+                # identity between two abstract objects is the identity of the model objects (a sentinel object() is not a
+                # list); identity of a symbolic value against None etc. stays symbolic
+                ident = (Obj, Lst, Dct, Tup, Cls, Fn)
+                if (isinstance(l, ident) and not isinstance(r, Term)) or (isinstance(r, ident) and not isinstance(l, Term)):
+                    s = l is r
             if s is not None:
                 return Const(s if op in ("Eq", "Is") else not s)
             if op in ("Eq", "NotEq"):
@@ -2329,10 +2332,22 @@ class Interp:
                     base.set(args[0], args[1])
                     return args[1]
                 return v
-            if meth == "update" and len(args) == 1 and isinstance(args[0], Dct):
-                for k, v in args[0].pairs:
-                    base.set(k, v)
-                return Const(None)
+            if meth == "update" and len(args) <= 1:
+                pairs = None
+                if not args:
+                    pairs = []
+                elif isinstance(args[0], Dct):
+                    pairs = list(args[0].pairs)
+                else:
+                    items = self.concrete_iter(args[0])
+                    if items is not None and all(isinstance(x, (Tup, Lst)) and len(x.items) == 2 for x in items):
+                        pairs = [(x.items[0], x.items[1]) for x in items]
+                if pairs is not None:
+                    for k, v in pairs:
+                        base.set(k, v)
+                    for k, v in kwargs.items():
+                        base.set(Const(k), v)
+                    return Const(None)
             if meth == "copy" and not args:
                 return Dct([(k, v) for k, v in base.pairs])
         if isinstance(base, Lst):
